@@ -805,11 +805,7 @@ impl BuiltInFunction {
                     args[0].as_list(borrowed_heap)?.clone()
                 };
                 let borrowed_heap = heap.borrow();
-                list.sort_by(|a, b| {
-                    a.compare(b, &borrowed_heap)
-                        .unwrap_or(None)
-                        .unwrap_or(std::cmp::Ordering::Equal)
-                });
+                list.sort_by(|a, b| sort_ordering(a, b, &borrowed_heap));
                 drop(borrowed_heap);
                 Ok(heap.borrow_mut().insert_list(list))
             }
@@ -1521,12 +1517,14 @@ impl BuiltInFunction {
                                 source,
                             );
 
+                            // Keys that could not be computed sort after all others.
                             match (result_a, result_b) {
-                                (Ok(val_a), Ok(val_b)) => val_a
-                                    .compare(&val_b, &heap.borrow())
-                                    .unwrap_or(None)
-                                    .unwrap_or(std::cmp::Ordering::Equal),
-                                _ => std::cmp::Ordering::Equal,
+                                (Ok(val_a), Ok(val_b)) => {
+                                    sort_ordering(&val_a, &val_b, &heap.borrow())
+                                }
+                                (Ok(_), Err(_)) => std::cmp::Ordering::Less,
+                                (Err(_), Ok(_)) => std::cmp::Ordering::Greater,
+                                (Err(_), Err(_)) => std::cmp::Ordering::Equal,
                             }
                         }
                         _ => std::cmp::Ordering::Equal,
@@ -1865,6 +1863,59 @@ impl FunctionDef {
                 return_value
             }
         }
+    }
+}
+
+/// Total order used by `sort` and `sort_by`.
+///
+/// It agrees with `Value::compare` wherever that is defined and extends it to a total
+/// preorder (values of different types are grouped by type, NaN sorts after every other
+/// number, lists compare lexicographically, all other same-type values are equal), so that
+/// the standard library sort never sees an inconsistent comparison - it panics on those.
+fn sort_ordering(a: &Value, b: &Value, heap: &Heap) -> std::cmp::Ordering {
+    use std::cmp::Ordering;
+
+    fn type_rank(value: &Value) -> u8 {
+        match value {
+            Value::Null => 0,
+            Value::Bool(_) => 1,
+            Value::Number(_) => 2,
+            Value::String(_) => 3,
+            Value::List(_) => 4,
+            Value::Record(_) => 5,
+            Value::Lambda(_) => 6,
+            Value::BuiltIn(_) => 7,
+            Value::Spread(_) => 8,
+        }
+    }
+
+    match (a, b) {
+        (Value::Number(x), Value::Number(y)) => x.partial_cmp(y).unwrap_or_else(|| {
+            // At least one NaN: NaN sorts after all other numbers.
+            x.is_nan().cmp(&y.is_nan())
+        }),
+        (Value::Bool(x), Value::Bool(y)) => x.cmp(y),
+        (Value::String(x), Value::String(y)) => {
+            match (x.reify(heap).as_string(), y.reify(heap).as_string()) {
+                (Ok(x), Ok(y)) => x.cmp(y),
+                _ => Ordering::Equal,
+            }
+        }
+        (Value::List(x), Value::List(y)) => {
+            match (x.reify(heap).as_list(), y.reify(heap).as_list()) {
+                (Ok(x), Ok(y)) => {
+                    for (x_elem, y_elem) in x.iter().zip(y.iter()) {
+                        match sort_ordering(x_elem, y_elem, heap) {
+                            Ordering::Equal => continue,
+                            other => return other,
+                        }
+                    }
+                    x.len().cmp(&y.len())
+                }
+                _ => Ordering::Equal,
+            }
+        }
+        _ => type_rank(a).cmp(&type_rank(b)),
     }
 }
 
